@@ -498,7 +498,10 @@ fn reports(prop: &str, fam: Family, ins: &Instruction, class: Class) -> bool {
     use Class::*;
     match prop {
         // (FaultState: after a refused store, memory must be what the CPU left - untouched)
-        "C01" => matches!(fam, Family::Data | Family::Cpuid) && matches!(class, Gpr | Xmm | Mem | Seg | Rip | FaultState),
+        // (SpuriousErr / Panic: "a form that executed on the pinned tree still executes" and its results are the
+        // CPU's - a refused step leaves the registers where they were, not where the CPU put them; MissedFault: the
+        // CPU left every register and byte untouched, the emulator produced a result)
+        "C01" => matches!(fam, Family::Data | Family::Cpuid) && matches!(class, Gpr | Xmm | Mem | Seg | Rip | FaultState | SpuriousErr | MissedFault | Panic),
         "C02" => matches!(fam, Family::Data) && class == Flags,
         "C03" => match fam {
             // a jump that fails where the CPU completes it did not transfer control as the CPU does
@@ -668,7 +671,7 @@ impl HwMonitor {
                     Some(k) => format!("K:{}", k),
                     None => {
                         let base = format!("{:?}:{}:{}", d.class, form, d.key);
-                        if matches!(d.class, Class::SpuriousErr | Class::Panic) && (prop == "C06" || prop == "C05" || prop == "C03" || prop == "C04") {
+                        if matches!(d.class, Class::SpuriousErr | Class::Panic) && (prop == "C06" || prop == "C05" || prop == "C03" || prop == "C04" || prop == "C01") {
                             format!("?impl:{}|{}", form, base)
                         } else {
                             base
